@@ -15,10 +15,18 @@ def jobs(tier):
     for j in shape_strata(M, "c11", tier, quick=strata, thorough=strata, max_seconds=ms):
         n = j["params"]["n"]
         js += split(j, "respell", len(KINDS)) if (n >= 4 or (n >= 3 and "alphabet" in j["params"])) else [j]
+    if not t:
+        # multi-element molecules on 3 atoms (the final sort by neighbour atomic numbers moves atoms): a subset of the respelling kinds
+        for j in shape_strata(M, "c11", tier, quick=[dict(name="S-elem4", ns=[3], pin={3: 3}, params=dict(K_m=1, K_r=0, alphabet=SIGMA_T4, kinds=["identity", "tuples-reversed", "renumber-in-block"]))], max_seconds=ms):
+            js.append(j)
     cur = ["C6-ring", "K33", "chain-11"] + (["prism", "cubane", "2xC3", "path-P8"] if t else [])
     for name in cur:
         n, bonds = CURATED[name]
         js += split(job(M, "c11", f"S-curated/{name}", dict(n=n, bonds=[list(b) for b in bonds], K_m=1, K_r=1 if n <= 6 else 0, **({} if t else {"label_atoms": [0, 1]})), max_seconds=ms), "respell", len(KINDS))
+    for name in ("ethanol", "acetonitrile"):
+        els, bonds = CURATED_MOL[name]
+        kinds = KINDS if t else ["identity", "tuples-reversed", "endpoints-all", "renumber-in-block", "blocks-split"]
+        js += split(job(M, "c11", f"S-molecule/{name}", dict(n=len(els), elements=els, bonds=[list(b) for b in bonds], K_m=1, K_r=1 if t else 0, kinds=kinds), max_seconds=ms), "respell", len(kinds))
     return js
 
 
@@ -27,7 +35,7 @@ def main(tier):
         "C11", tier, jobs(tier),
         bounds=dict(std_bounds(tier, relist=False), atoms="all labelled graphs n <= %d; {H,C,O,Br} n <= %d; curated skeletons incl. an 11-atom chain; <= 1 mass and <= 1 radical label, values symbolic" % ((4, 3) if tier == "thorough" else (3, 2)),
                     respellings="one of: tuples reversed / rotated / one adjacent swap; endpoints of all / one tuple swapped; one tuple repeated (either orientation; in front, right behind the original or at the end); attribute blocks reversed; blocks split into one block per property (either order); properties inside blocks reversed; two adjacent atom numbers inside one element block exchanged everywhere"),
-        assumptions=STD_ASSUME + ["token lift as in C03 (justified by the numeral-uniformity lemma of C10)", "respellings are produced from the independent reference parse of the canonical string (REF-GRAMMAR)"],
+        assumptions=STD_ASSUME + ["token lift as in C03 (justified by the numeral-uniformity lemma of C10)", "the starting spelling of each molecule is written by the harness without the library (blocks of increasing atomic number, Hill formula); the library's own string for the molecule must be the same normal form"],
         stubs=["module attribute `int` of tucan.parser.parser shadowed", "tucan.parser.parser._walk_tree wrapped to rewrite numeral token texts"],
         outside=["compositions of two or more respelling kinds", "n > 4 beyond the curated skeletons"],
-        explanation="canonical string s0 of an abstract molecule, one solver-chosen respelling s1; norm = serialize . canonicalize . graph_from_tucan (token lift); obligations: norm(s1) == norm(s0) and norm(norm(s1)) == norm(s1) for all attribute values")
+        explanation="a library-independent valid spelling s0 of an abstract molecule, one solver-chosen respelling s1; norm = serialize . canonicalize . graph_from_tucan (token lift); obligations: norm(s1) == norm(s0), norm(norm(s0)) == norm(s0), tucan(M) == norm(s0) for all attribute values")
